@@ -134,7 +134,7 @@ example : ∃ u f c text out, shape u f c text = .ok out ∧ hasFlag c.flags BF_
   ⟨⟨fun c => if c == 0x200B then 1 else 7, fun _ => 0, genIsDI, fun _ => false, fun _ => 0, fun _ => none,
       fun _ => none, fun _ => false⟩,
    ⟨[⟨3, 1, fun c => if c == 0x20 then some 3 else if c == 0x41 then some 1 else none⟩], 1000,
-      some (fun _ => some 500), none, 800, -200, none⟩,
+      some (fun _ => some 500), none, 800, -200, none, none, fun _ => 0⟩,
    ⟨.ltr, some .ltr, 0, 0, 0⟩, [(0x41, 0), (0x200B, 1), (0x41, 2)], _, rfl, by decide,
    by decide⟩
 
@@ -183,7 +183,7 @@ example : ∃ (u : Ucd) (f : Font) (c : Cfg) (text : List (Nat × Nat)), hasFlag
   ⟨⟨fun c => if c == 0x200B then 1 else 9, fun _ => 0, genIsDI, fun _ => false, fun _ => 0, fun _ => none,
       fun _ => none, fun _ => false⟩,
    ⟨[⟨3, 1, fun c => if c == 0x200B then some 3 else if c == 0x41 then some 1 else none⟩], 1000,
-      some (fun _ => some 500), none, 800, -200, none⟩,
+      some (fun _ => some 500), none, 800, -200, none, none, fun _ => 0⟩,
    ⟨.ltr, some .ltr, 4, 0, 0⟩, [(0x41, 0), (0x200B, 1), (0x41, 2)],
    by decide,
    by intro t _; exact ⟨rfl, rfl⟩,
@@ -250,7 +250,7 @@ example : ∃ (u : Ucd) (f : Font) (c : Cfg) (text : List (Nat × Nat)),
     NoDottedCircle u f c text ∧ (text.filter fun t => u.isDI t.1).length = 5 :=
   ⟨⟨fun c => if c == 0x41 then 9 else if c == 0x34F || c == 0xFE00 then 12 else 1, fun _ => 0, genIsDI,
       fun _ => false, fun _ => 0, fun _ => none, fun _ => none, fun _ => false⟩,
-   ⟨[⟨3, 1, fun c => if c == 0x41 then some 1 else none⟩], 1000, some (fun _ => some 500), none, 800, -200, none⟩,
+   ⟨[⟨3, 1, fun c => if c == 0x41 then some 1 else none⟩], 1000, some (fun _ => some 500), none, 800, -200, none, none, fun _ => 0⟩,
    ⟨.ltr, some .ltr, 8, 0, 0⟩,
    [(0x200B, 0), (0x41, 1), (0x34F, 2), (0xFE00, 3), (0x41, 4), (0x200D, 5), (0xE0020, 6)],
    rfl, Or.inr rfl,
@@ -275,7 +275,7 @@ def vsWitnessUcd : Ucd :=
    fun _ => false, fun c => if c == 0x2003 then 1 else 0, fun _ => none, fun _ => none, fun _ => false⟩
 def vsWitnessFont : Font :=
   ⟨[⟨3, 1, fun c => if c == 0x41 then some 1 else if c == 0x20 then some 3 else none⟩], 1000,
-   some (fun g => some (100 * g + 50)), none, 800, -200, none⟩
+   some (fun g => some (100 * g + 50)), none, 800, -200, none, none, fun _ => 0⟩
 def vsWitnessCfg : Cfg := ⟨.ltr, some .ltr, 0, 0, 0⟩
 
 theorem known_C13_vs_fallback :
